@@ -77,7 +77,7 @@ def gen_plan(rng, tier, index):
     kinds = rng.subset(RANDINT_FAULTS + SHUFFLE_FAULTS, 0.3, 1.0)
     return {'routine': routine, 'spec': spec, 'method': method, 'models': models, 'opts': opts,
             'faults': {'rate': rng.pick([0.0, 0.25, 0.5, 0.5]), 'kinds': kinds, 'k_targets': [2, 3, 4, 5, 6]},
-            'meta6': rng.chance(0.5), 'meta7': rng.chance(0.25), 'meta8': rng.chance(0.012)}
+            'meta6': rng.chance(0.5), 'meta7': rng.chance(0.25), 'meta8': rng.chance(0.005)}
 
 
 def directed_plans(tier):
